@@ -34,10 +34,12 @@ TABLE = [
     ("ECDH_RSA/521_ECDH-RSA", "leaf", "ECDH_RSA/2048_ECDH-RSA_CA"), ("ECDH_RSA/2048_ECDH-RSA_CA", "ca", None),
     # Ed25519-SIGNED certificates (corpus/C03/fixtures, see README there): a three-level hierarchy
     ("@ed25519_leaf", "leaf", "@ed25519_i2"), ("@ed25519_i2", "ca", "@ed25519_i1"), ("@ed25519_i1", "ca", "@ed25519_root"), ("@ed25519_root", "ca", None),
-]
+    ("@decoy_rsa2048_ca", "ca", None),       # same subject name as RSA/2048_RSA_CA, another RSA-2048 key
+]   # append only: corpus/C03/*.case lines refer to entries by index
 # used by the parse-gate stream only (SHA-1 signed)
 SHA1_CERTS = ["RSA/2048_RSA_SHA1", "RSA/2048_RSA_SHA1_CA", "EC/256_EC_SHA1", "EC/256_EC_SHA1_CA"]
 
+WRAPS = ["psGetBrokenDownGMTime", "psCRL_determineRevokedStatus", "_psTrace", "_psTraceInt", "_psTraceStr", "_psTracePtr"]
 FIELDS = "b k hs ss co alg subj iss ver ca pl ku eku crit akl akv skl skv fl0 st0 nb na rev".split()
 PASS = 1
 CA_TRUE = 255
@@ -181,6 +183,7 @@ class Universe:
         self.is_rsa_key = [b"\x2a\x86\x48\x86\xf7\x0d\x01\x01" in d.spki[:20] for d in self.d]
         # bodies whose signature is over the TBSCertificate itself (Ed25519): no sigHash to graft
         self.nohash = [kids(d.alg_out)[0][1] == bytes([0x2b, 0x65, 0x70]) for d in self.d]
+        self.ecdsa = [kids(d.alg_out)[0][1][:6] == bytes.fromhex("2a8648ce3d04") for d in self.d]
         self.pkcs1 = [kids(d.alg_out)[0][1].hex() in ("2a864886f70d01010b", "2a864886f70d01010c", "2a864886f70d01010d") for d in self.d]
 
     def cross_check(self):
@@ -211,10 +214,14 @@ def tbs_of(n): return n["hs"] if n["hs"] >= 0 else n["b"]
 def sig_of(n): return 2 * (n["ss"] if n["ss"] >= 0 else n["b"]) + (1 if n["co"] == 1 else 0)
 def date_now(n): return -1 if (n["nb"] == 4 or n["na"] == 2) else (1 if (n["nb"] == 3 or n["na"] == 1) else 0)
 
+def true_alg(U, t):
+    """the sigAlgorithm under which the signature over TBS t verifies; 0 = any (ECDSA verification does not look at the OID)"""
+    return 0 if U.ecdsa[t] else U.alg[t]
+
 def node_tok(U, n):
     t = tbs_of(n)
     kf = U.key_id[n["k"] if n["k"] >= 0 else n["b"]]
-    return ":".join(str(n[f]) for f in FIELDS) + ":%d:%d:%d:%d:%d" % (U.signer_id[t], kf, U.alg[t], P3[n["nb"]], date_now(n))
+    return ":".join(str(n[f]) for f in FIELDS) + ":%d:%d:%d:%d:%d" % (U.signer_id[t], kf, true_alg(U, t), P3[n["nb"]], date_now(n))
 
 def vc_line(U, rv, chain, anchors):
     return "vc %d %d %d %s" % (rv, len(chain), len(anchors), " ".join(node_tok(U, n) for n in chain + anchors))
@@ -242,14 +249,14 @@ class Oracle:
         """the generator's ground truth: sc's signature bytes are the untouched signature over the TBS it
         carries, made by the key ic carries, with the algorithm sc declares"""
         t = tbs_of(sc)
-        return sig_of(sc) == 2 * t and self.U.signer_id[t] == self.key(ic) and sc["alg"] == self.U.alg[t]
+        return sig_of(sc) == 2 * t and self.U.signer_id[t] == self.key(ic) and true_alg(self.U, t) in (0, sc["alg"])
     def issued_by(self, sc, ic):
         return (sc["iss"] == ic["subj"] and self.sig_true(sc, ic) and ic["ca"] == CA_TRUE and
                 (ic["ku"] == 0 or (ic["ku"] & 4) != 0) and sc["rev"] != REVOKED)
     def same_cert(self, sc, ic): return tbs_of(sc) == tbs_of(ic) and sig_of(sc) == sig_of(ic)
     def step(self, sc, ic): return self.issued_by(sc, ic) or self.same_cert(sc, ic)
     def pathlen_ok(self, sc, ic, k):
-        d = k - 1 if (tbs_of(sc) == tbs_of(ic) and k > 0) else k
+        d = k - 1 if (self.same_cert(sc, ic) and k > 0) else k
         return ic["pl"] < 0 or d <= ic["pl"]
     def valid_now(self, rv, c): return (c["fl0"] & DATE_FLAG) == 0 and (not rv or date_now(c) == 0)
     def path_to(self, rv, chain, a):
@@ -393,7 +400,11 @@ class Gen:
             chain.insert(i + 1, cp)
         elif m == 25 and anchors and len(chain) < 6:
             # the peer also sends (a copy of) the trust anchor
-            cp = dict(r.choice(anchors)); chain.append(cp)
+            a = r.choice(anchors); cp = dict(a); chain.append(cp)
+            if r.random() < 0.3:
+                # ... and the application's copy differs in the signature field only: not the same certificate for the path-length rule
+                if r.random() < 0.5: a["co"] = 1
+                else: a["ss"] = self.other_body(a["b"])
         elif m == 26 and anchors:
             # the application trusts the chain's top certificate directly (intermediate as root)
             cp = dict(chain[-1]); cp["st0"] = 0
@@ -529,13 +540,31 @@ def accepted(out):
     if not m: return None
     return int(m.group(1)) == 0 and all(int(x) == PASS for x in m.group(3).split(","))
 
-def klass(rv, chain, anchors):
-    return "n%d/a%d/rv%d" % (len(chain), len(anchors), rv)
+def why_no_path(O, rv, chain, top_issuer):
+    """which rule the path the implementation claims (chain up to the issuer it reports) breaks"""
+    p = chain + ([top_issuer] if top_issuer is not None else [])
+    for i in range(len(p) - 1):
+        sc, ic = p[i], p[i + 1]
+        if not O.step(sc, ic):
+            if sc["iss"] != ic["subj"] and sig_of(sc) == sig_of(ic): return "equal-signature-bytes-foreign-issuer"
+            if sc["iss"] != ic["subj"] and tbs_of(sc) == tbs_of(ic): return "equal-digest-foreign-issuer"
+            if sc["iss"] != ic["subj"]: return "foreign-issuer"
+            if not O.sig_true(sc, ic): return "bad-signature"
+            return "issuer-not-entitled"
+        if not O.pathlen_ok(sc, ic, i):
+            return "pathlen" + ("-nohash" if O.U.nohash[tbs_of(sc)] and O.U.nohash[tbs_of(ic)] else "")
+    for c in chain:
+        if not O.valid_now(rv, c): return "validity"
+    return "no-such-anchor"
+
+def found_anchor(out, anchors):
+    m = re.search(r"found=a(\d+)", out)
+    return anchors[int(m.group(1))] if m and int(m.group(1)) < len(anchors) else None
 
 def setup(ck):
     R = ck.build_repo()
     U = Universe(R)
-    h = ck.cc("h_chain.c", wraps=["psGetBrokenDownGMTime", "psCRL_determineRevokedStatus"])
+    h = ck.cc("h_chain.c", wraps=WRAPS)
     certlines = ["cert %d %s" % (i, d.hex()) for i, d in enumerate(U.ders)]
     rc, out, err = ck.run_lines(h, certlines)
     for i, l in enumerate(out[:len(certlines)]):
@@ -556,22 +585,27 @@ def spec_check(ck, U, O, line, out, model=None):
         ok = O.self_contained(chain) and all(O.valid_now(rv, c) for c in chain)
         ck.count("spec:noanchor-accept" if acc else "spec:noanchor-reject")
         if acc and not ok:
-            ck.spec_violation("accept-without-path:noanchor:" + klass(rv, chain, anchors),
-                              "validation without trust anchors reports success for a chain that is not signed up to a self-signed certificate",
+            top = chain[-1]
+            why = "top-not-self-signed" if not (top["iss"] == top["subj"] and O.sig_true(top, top)) else why_no_path(O, rv, chain, None)
+            ck.spec_violation("accept-without-path:noanchor:" + why,
+                              "validation without trust anchors reports success for a chain that is not signed up to a self-signed certificate (%s)" % why,
                               dict(rep, expected_by_spec="reject"))
         return
     g = O.genuine(rv, chain, anchors)
     fresh = chain[0]["st0"] == 0
     ck.count("spec:" + ("accept" if acc else "reject") + ("+path" if g else "-path"))
     if acc and not g and fresh:
-        ck.spec_violation("accept-without-path:" + klass(rv, chain, anchors),
-                          "matrixValidateCertsExt reports success (rc 0, every authStatus PASS) although no genuinely signed, rule-abiding path leads from the leaf to any trust anchor",
+        why = why_no_path(O, rv, chain, found_anchor(out, anchors))
+        ck.spec_violation("accept-without-path:" + why,
+                          "matrixValidateCertsExt reports success (rc 0, every authStatus PASS) although no genuinely signed, rule-abiding path leads from the leaf to any trust anchor (%s)" % why,
                           dict(rep, expected_by_spec="reject"))
     if not acc:
         j = O.supported(rv, chain, anchors)
         if j is not None:
             ck.count("spec:supported-path")
-            ck.spec_violation("reject-genuine:" + klass(rv, chain, anchors),
+            m = re.match(r"rc=(-?\d+) found=(\S+) st=(\S+)", out)
+            bad = [x for x in m.group(3).split(",") if x != "1"]
+            ck.spec_violation("reject-genuine:rc=%s:st=%s" % (m.group(1), bad[0] if bad else "1"),
                               "matrixValidateCertsExt rejects a chain that is genuinely signed up to trust anchor %d and uses only supported features" % j,
                               dict(rep, expected_by_spec="accept"))
     elif O.supported(rv, chain, anchors) is not None:
@@ -614,12 +648,12 @@ def run(ck):
         if l not in seen: seen.add(l); cases.append(l)
     for rv, c, a in single_field_sweep(U, G, ck.rng("sweep"), ck.budget(2, 50)):
         add(vc_line(U, rv, c, a))
-    n = ck.budget(3000, 200000)
+    n = ck.budget(8000, 200000)
     while len(cases) < n + ncorp:
         rv, c, a = G.case()
         add(vc_line(U, rv, c, a))
-        if r.random() < 0.12: add(ac_line(U, c, a[0] if a else None))
-    pcases = ps_cases(R, U, ck.rng("ps"), consts, ck.budget(900, 100000))
+        if r.random() < 0.12: add(ac_line(U, c, None) if (not a or r.random() < 0.3) else ac_line(U, [c[-1]], r.choice(a)))
+    pcases = ps_cases(R, U, ck.rng("ps"), consts, ck.budget(1500, 100000))
     t = vlib.time.time()
     rc, impl, err = ck.run_lines(h, certlines + cases + pcases)
     ck.log("harness: %d lines in %.1fs" % (len(cases) + len(pcases), vlib.time.time() - t))
@@ -633,7 +667,7 @@ def run(ck):
                     "intermediate trusted as root, same-name decoy anchor, anchor removed); all single-field changes of base chains; corpus witnesses first; "
                     "parse gate: DER rebuilt with version / inner+outer algorithm / commonName / extension / calendar changes; a case is non-trivial when the first link's signature is checked")
     ck.correspond("validate/auth_api(model) vs matrixValidateCertsExt/psX509AuthenticateCert(impl)", cases, impl_c, model_c,
-                  nontrivial=lambda c, o: "st=-33" not in o.split(",")[0] and "NODEFAIL" not in o)
+                  nontrivial=lambda c, o: o.startswith("rc=") and not re.search(r" st=-3[23]\b", o))   # the first link got as far as its signature
     ck.correspond("parse_gate/date_flag(model) vs psX509ParseCert(impl)", pcases, impl_p, model_p)
     for i, c in enumerate(cases):
         if i < len(impl_c):
@@ -669,6 +703,18 @@ def run(ck):
             ck.spec_violation("revalidate-same-struct", "validating the same parsed certificate a second time gives a different verdict "
                               "(psVerifySig consumes the const signature buffer)", {"harness": "h_chain", "case": l, "cert": U.names[int(l.split()[1])], "observed": o,
                                                                                    "expected_by_spec": "first=0/1 second=0/1"})
+    # public API, untouched certificates: the order of two same-named trust anchors must not decide
+    ix = U.names.index
+    pv = ["pv %d %d %d" % (ix("RSA/2048_RSA"), ix("RSA/2048_RSA_CA"), ix("@decoy_rsa2048_ca")),
+          "pv %d %d %d" % (ix("RSA/2048_RSA"), ix("@decoy_rsa2048_ca"), ix("RSA/2048_RSA_CA")),
+          "pv %d %d" % (ix("RSA/2048_RSA"), ix("@decoy_rsa2048_ca"))]
+    rc4, pout, _ = ck.run_lines(h, certlines + pv)
+    pout = pout[k:]
+    ck.count("pv:" + "/".join(pout))
+    if pout[:2] != ["rc=0 st=1", "rc=0 st=1"] or (len(pout) > 2 and pout[2].startswith("rc=0")):
+        ck.spec_violation("anchor-order-decides", "matrixValidateCerts on the untouched testkeys 2048 leaf with trust anchors {2048_RSA_CA, same-named CA with another RSA-2048 key}: "
+                          "the verdict depends on the order of the anchors (expected accept / accept / reject for [CA, decoy] / [decoy, CA] / [decoy])",
+                          {"harness": "h_chain", "case": pv[1], "cases": pv, "observed": pout, "expected_by_spec": ["rc=0 st=1", "rc=0 st=1", "rc<0"]})
     ck.cov["exhaustive"] = False
     ck.cov["table_certs_parsed"] = sum(U.ok)
 
